@@ -99,7 +99,7 @@ fn run(args: &[String]) -> (i32, String, String) {
 
 /// correspondence unit: the -o bytes of the real binary vs the model's rendering (length + FNV-1a)
 pub fn unit_cli(o: &mut Out, tier: &str, r: &mut Rng) {
-    let n = if tier == "thorough" { 400 } else { 40 };
+    let n = sz!(tier, 40, 400);
     let dir = scratch();
     let cases: Vec<Cli> = (0..n).map(|i| gen_cli(r, if i % 4 == 0 { 400 } else { 40 })).collect();
     let workers = std::thread::available_parallelism().map(|x| x.get()).unwrap_or(4).min(16);
@@ -260,7 +260,7 @@ pub fn c19(ctx: &mut Ctx, tier: &str, r: &mut Rng, js: &[Value], _reqs: &[String
         ctx.finish(json!({}));
         return;
     }
-    let n = if tier == "thorough" { 300 } else { 36 };
+    let n = sz!(tier, 36, 300);
     // the cases are drawn from the one stream first, then run against the binary on several threads
     // (each run of the tool can take seconds at polar latitudes), and recorded in their order
     let mut prev: Option<Cli> = None;
